@@ -105,3 +105,47 @@ impl FetchQueue {
         Ok(Accepted(n, send))
     }
 }
+
+/// The real gossip network state of a node, driven one connection at a time.
+pub struct Node(pub(crate) Arc<super::Network>);
+
+impl Node {
+    pub fn new(
+        cfg: Config,
+        engine_manager: Arc<zksync_consensus_engine::EngineManager>,
+        epoch_number: Option<validator::EpochNumber>,
+    ) -> Self {
+        // Consensus messages received over the network are dropped: no replica is attached.
+        let (send, _recv) = sync::prunable_mpsc::channel(
+            |_: &crate::io::ConsensusReq| true,
+            |_, _| sync::prunable_mpsc::SelectionFunctionResult::Keep,
+        );
+        Self(super::Network::new(
+            cfg,
+            engine_manager,
+            epoch_number,
+            send,
+        ))
+    }
+    /// The real handler of an inbound gossip connection (handshake, admission, service loop).
+    pub async fn run_inbound_stream(&self, ctx: &ctx::Ctx, stream: NoiseTcp) -> anyhow::Result<()> {
+        self.0.run_inbound_stream(ctx, stream.0).await
+    }
+    /// The real handler of an outbound gossip connection (dial, handshake, admission, service loop).
+    pub async fn run_outbound_stream(
+        &self,
+        ctx: &ctx::Ctx,
+        peer: &node::PublicKey,
+        addr: std::net::SocketAddr,
+    ) -> anyhow::Result<()> {
+        self.0
+            .run_outbound_stream(ctx, peer, zksync_concurrency::net::Host(addr.to_string()))
+            .await
+    }
+    pub fn inbound(&self) -> Vec<node::PublicKey> {
+        self.0.inbound.current().keys().cloned().collect()
+    }
+    pub fn outbound(&self) -> Vec<node::PublicKey> {
+        self.0.outbound.current().keys().cloned().collect()
+    }
+}
